@@ -1,5 +1,6 @@
 pub mod pct;
 pub mod range;
+pub mod sigv4;
 pub mod time;
 pub mod wildcard;
 pub mod xmlcanon;
@@ -15,6 +16,8 @@ pub fn self_test_all() -> Result<usize, String> {
     range::self_test()?;
     n += 1;
     pct::self_test()?;
+    n += 1;
+    sigv4::self_test()?;
     n += 1;
     Ok(n)
 }
